@@ -400,6 +400,104 @@ def _pretty(v):
     return v.replace("\x01", "{{").replace("\x02", "}}")
 
 
+def _is_permutation(px, f, pname, depth=0):
+    """(verdict, reason) - verdict True: every value f returns holds each element of its parameter `pname` exactly once;
+    False: a construct that can drop or merge elements was found; None: not understood"""
+    node = f.node
+    assigns = {}
+    for n in ast.walk(node):
+        if isinstance(n, (ast.Assign, ast.AnnAssign)) and n.value is not None:
+            for t in (n.targets if isinstance(n, ast.Assign) else [n.target]):
+                if isinstance(t, ast.Name):
+                    assigns.setdefault(t.id, []).append(n.value)
+    LOSSY_METHODS = {"append", "remove", "pop", "clear", "insert", "extend", "discard", "add", "update", "setdefault", "popitem"}
+
+    def perm(e, seen=()):
+        if isinstance(e, ast.Name):
+            if e.id == pname:
+                return True, ""
+            if e.id in seen or e.id not in assigns:
+                return None, f"`{e.id}` is not derived from `{pname}`"
+            # a local: assigned once from a permutation and afterwards only sorted / reversed in place
+            for c in ast.walk(node):
+                if isinstance(c, ast.Call) and isinstance(c.func, ast.Attribute) and isinstance(c.func.value, ast.Name) and c.func.value.id == e.id \
+                        and c.func.attr in LOSSY_METHODS:
+                    return None, f"`{e.id}` is filled element by element"
+                if isinstance(c, (ast.Subscript,)) and isinstance(c.ctx, (ast.Store, ast.Del)) and isinstance(c.value, ast.Name) and c.value.id == e.id:
+                    kind = assigns[e.id][0]
+                    if isinstance(kind, ast.Dict) or (isinstance(kind, ast.Call) and ast.unparse(kind.func) in ("dict", "collections.OrderedDict", "OrderedDict", "set")):
+                        return False, (f"the elements are collected in the mapping `{e.id}` under `{ast.unparse(c.slice)}`: elements with equal keys "
+                                       "replace each other, and the result is shorter than the input")
+                    return None, f"`{e.id}` is written by subscript"
+            if len(assigns[e.id]) != 1:
+                return None, f"`{e.id}` is assigned more than once"
+            return perm(assigns[e.id][0], seen + (e.id,))
+        if isinstance(e, ast.Call):
+            fn = ast.unparse(e.func)
+            if fn in ("sorted", "list", "tuple", "reversed") and e.args:
+                return perm(e.args[0], seen)
+            if fn in ("set", "frozenset", "dict", "dict.fromkeys") and e.args:
+                return False, f"`{fn}(...)` merges equal elements"
+            for h in px.resolve_call(f, e, by_name_fallback=False):
+                if h.module is f.module and e.args and depth < 3:
+                    hp = [a.arg for a in h.node.args.args if a.arg not in ("self", "cls")]
+                    ok_arg, why_arg = perm(e.args[0], seen)
+                    if ok_arg is not True:
+                        return ok_arg, why_arg
+                    return _is_permutation(px, h, hp[0], depth + 1)
+            return None, f"call `{ast.unparse(e)[:60]}` not understood"
+        if isinstance(e, (ast.ListComp, ast.GeneratorExp)):
+            if len(e.generators) != 1:
+                return None, "nested comprehension"
+            g = e.generators[0]
+            if g.ifs:
+                return False, f"the comprehension filters its input (`if {ast.unparse(g.ifs[0])}`)"
+            it = g.iter
+            if isinstance(it, ast.Call) and isinstance(it.func, ast.Attribute) and it.func.attr in ("values", "items", "keys") and isinstance(it.func.value, ast.Name):
+                return perm(it.func.value, seen)
+            return perm(it, seen)
+        if isinstance(e, ast.Subscript) and isinstance(e.slice, ast.Slice):
+            sl = e.slice
+            if sl.lower is None and sl.upper is None:
+                return perm(e.value, seen)
+            return False, f"the slice `{ast.unparse(e)}` drops elements"
+        if isinstance(e, (ast.DictComp, ast.SetComp, ast.Dict, ast.Set)):
+            return False, "a set / mapping keyed by a computed value merges elements with equal keys"
+        return None, f"`{ast.unparse(e)[:60]}` not understood"
+
+    rets = [r for r in ast.walk(node) if isinstance(r, ast.Return) and r.value is not None and
+            not any(r in ast.walk(inner) for inner in ast.walk(node) if isinstance(inner, (ast.FunctionDef, ast.Lambda)) and inner is not node)]
+    if not rets:
+        return None, "no return"
+    for r in rets:
+        ok, why = perm(r.value)
+        if ok is not True:
+            return ok, why
+    return True, ""
+
+
+def rule_listing(ctx, px):
+    R = "R-C20-LISTING"
+    ctx.rule(
+        R,
+        "the sort filters that order the types and namespaces of a page return every element of their input exactly once "
+        "(sorted(...) / in-place sort / an unfiltered comprehension over it): a type dropped from the listing gets no element and "
+        "no id, while url_from_type still emits links to it",
+    )
+    m = px.module("nunavut.lang.html")
+    n = 0
+    for name, f in sorted(m.funcs.items()):
+        if not name.startswith("filter_natural_sort"):
+            continue
+        n += 1
+        params = [a.arg for a in f.node.args.args]
+        ok, why = _is_permutation(px, f, params[0])
+        if ok is None:
+            raise AnalysisError(f"anchor changed: how {name} builds its result ({why})")
+        ctx.ob(R, m.rel, f"{name} :: returns a permutation of its input", ok, why, f.node.lineno)
+    ctx.floor(R, n, 2)
+
+
 def run(ctx):
     ctx.explanation = (
         "C20 is decided on the HTML templates and the html language module: autoescaping is resolved statically from "
@@ -415,3 +513,4 @@ def run(ctx):
     rule_escape(ctx, ts, px)
     rule_balance(ctx, ts)
     rule_anchor(ctx, ts, px)
+    rule_listing(ctx, px)
